@@ -104,8 +104,9 @@ ScalarFields(t) ==
          sz \in sizes, ty \in tys, b \in bos}
 
 ExplicitFields(t) ==
-  LET pairs == IF t.k = "bits" THEN {<<4, 4>>, <<4, 3>>, <<1, 1>>, <<2, 2>>}
-                               ELSE {<<2, 16>>, <<2, 8>>, <<1, 16>>, <<1, 8>>}
+  \* (-1: an explicit `:0' -- never the size of a non-empty field, never a legal width)
+  LET pairs == IF t.k = "bits" THEN {<<4, 4>>, <<4, 3>>, <<1, 1>>, <<2, 2>>, <<4, -1>>}
+                               ELSE {<<2, 16>>, <<2, 8>>, <<1, 16>>, <<1, 8>>, <<1, -1>>, <<2, -1>>}
       tys   == {"UInt", "Flag"} \cup {prog.types[i].name : i \in EnumTypes}
   IN  {[cls |-> "explicit", f |-> Fld("phys", NextFieldName(t), At(t, p[1]), p[1], ty, p[2], <<>>,
                                       IF t.k = "struct" THEN <<BO("LittleEndian")>> ELSE <<>>)] :
